@@ -177,7 +177,7 @@ Definition kind_spec (r : rev) (b : bytes) : Prop :=
   | KEd => ClientPdus.emit_erect_domain = Ok b
   | KAu => ClientPdus.emit_attach_user = Ok b
   | KCj => exists uid ch, ClientPdus.emit_channel_join uid ch = Ok b
-  | KInfo => exists uid ver, ClientPdus.emit_client_info p false (pdu_cfg c) (ClientPdus.mkIds 0 ver uid 0) = Ok b
+  | KInfo => exists uid ver io, ClientPdus.emit_client_info p false (pdu_cfg c) (ClientPdus.mkIds 0 ver uid 0 io) = Ok b
   | KNone => exists ok, r_ev r = TlsStart ok
   end.
 
@@ -202,21 +202,18 @@ Qed.
 
 (* a Client Info event of the rendering comes from an INFO message of the trace, with that message's user id *)
 Lemma render_info : forall l k r, In r (render p c e cssp k l) -> r_kind r = KInfo ->
-  exists ini ch len, (In (RawWrite (INFO ini ch len)) l \/ In (TlsWrite (INFO ini ch len)) l) /\
-    exists ver, r_bytes r = ClientPdus.emit_client_info p false (pdu_cfg c) (ClientPdus.mkIds 0 ver (ini + 1001) 0).
+  exists ini ch len, (r_ev r = RawWrite (INFO ini ch len) \/ r_ev r = TlsWrite (INFO ini ch len)) /\
+    exists ver, r_bytes r = ClientPdus.emit_client_info p false (pdu_cfg c) (ClientPdus.mkIds 0 ver (ini + 1001) 0 ch).
 Proof.
   induction l as [|x tl IH]; intros k r Hin Hk; [contradiction|].
-  destruct x as [m|ok|m]; cbn [render] in Hin; destruct Hin as [<-|Hin].
-  - cbn [r_kind r_bytes] in *. destruct m as [pr fl| |len sel| | |ini ch|ini ch len]; cbn [render_msg fst snd] in *; try discriminate.
+  destruct x as [m|ok|m]; cbn [render] in Hin; destruct Hin as [<-|Hin]; eauto.
+  - cbn [r_kind r_bytes r_ev] in *. destruct m as [pr fl| |len sel| | |ini ch|ini ch len]; cbn [render_msg fst snd] in *; try discriminate.
     + destruct k as [|[|[|k]]]; discriminate.
-    + exists ini, ch, len. split; [left; left; reflexivity|]. eexists. reflexivity.
-  - destruct (IH _ _ Hin Hk) as (ini & ch & len & [H|H] & Hv); exists ini, ch, len; (split; [|exact Hv]); [left|right]; right; exact H.
+    + exists ini, ch, len. split; [left; reflexivity|]. eexists. reflexivity.
   - discriminate.
-  - destruct (IH _ _ Hin Hk) as (ini & ch & len & [H|H] & Hv); exists ini, ch, len; (split; [|exact Hv]); [left|right]; right; exact H.
-  - cbn [r_kind r_bytes] in *. destruct m as [pr fl| |len sel| | |ini ch|ini ch len]; cbn [render_msg fst snd] in *; try discriminate.
+  - cbn [r_kind r_bytes r_ev] in *. destruct m as [pr fl| |len sel| | |ini ch|ini ch len]; cbn [render_msg fst snd] in *; try discriminate.
     + destruct k as [|[|[|k]]]; discriminate.
-    + exists ini, ch, len. split; [right; left; reflexivity|]. eexists. reflexivity.
-  - destruct (IH _ _ Hin Hk) as (ini & ch & len & [H|H] & Hv); exists ini, ch, len; (split; [|exact Hv]); [left|right]; right; exact H.
+    + exists ini, ch, len. split; [right; reflexivity|]. eexists. reflexivity.
 Qed.
 
 End Render.
@@ -379,7 +376,7 @@ Proof.
   apply C02_proofs.triple_ret. auto.
 Qed.
 
-Lemma sec_connect_G uid v5 : C02_proofs.triple G (sec_connect p c uid v5) (fun _ => G) X.
+Lemma sec_connect_G uid io v5 : C02_proofs.triple G (sec_connect p c uid io v5) (fun _ => G) X.
 Proof.
   unfold sec_connect.
   eapply C02_proofs.triple_bind; [apply triple_emit_G; reflexivity|]. intros ?.
@@ -470,7 +467,7 @@ Proof.
   assert (H : C02_proofs.triple (fun s => s = mkSt cs [] false 0)
             (bind (x224_connect p trusted tls_start R c) (fun sel =>
              bind (mcs_connect p ber_parse c sel) (fun us =>
-             bind (sec_connect p c (fst us) (rdp_v5 (snd us))) (fun _ => ret us))))
+             bind (sec_connect p c (fst us) (global_id (snd us)) (rdp_v5 (snd us))) (fun _ => ret us))))
             (fun _ => G) X).
   { eapply C02_proofs.triple_bind with (Q := fun _ => G).
     - intros s ->. exact x224_shape.
@@ -483,25 +480,49 @@ Qed.
 
 End Shape.
 
-(* ---- the user id inside the Client Info message of the trace is one the PER reader can return ---- *)
+(* ---- invariants "every message of the trace satisfies [ok]": the user id inside the Client Info message is one the
+   PER reader can return; its channel is the I/O channel id of the server data the run returns ---- *)
 Definition uid_ok (m : cmsg) : Prop := match m with INFO ini _ _ => ini + 1001 <= 65535 | _ => True end.
-Definition I (s : cst) : Prop := forall m, In (RawWrite m) (s_ev s) \/ In (TlsWrite m) (s_ev s) -> uid_ok m.
+Definition no_info (m : cmsg) : Prop := match m with INFO _ _ _ => False | _ => True end.
+Definition info_of (us : N * server_data) (m : cmsg) : Prop :=
+  match m with INFO ini io _ => ini + 1001 = fst us /\ io = global_id (snd us) | _ => True end.
+
+Lemma triple_weaken {A} (P : cst -> Prop) (m : M A) (Q Q' : A -> cst -> Prop) (E E' : cst -> Prop) :
+  C02_proofs.triple P m Q E -> (forall a s, Q a s -> Q' a s) -> (forall s, E s -> E' s) -> C02_proofs.triple P m Q' E'.
+Proof. intros H HQ HE s Hs. specialize (H s Hs). destruct (m s) as [o s']. destruct o; auto. Qed.
+
+Lemma attach_user_uid input uid : read_attach_user_confirm input = Ok uid -> 1001 <= uid <= 65535.
+Proof.
+  unfold read_attach_user_confirm. destruct input as [|h request]; [discriminate|].
+  destruct (negb (N.shiftr h 2 =? MCS_ATTACH_USER_CONFIRM)); [discriminate|].
+  unfold per_read_u8. destruct request as [|b r]; cbn [obind]; [discriminate|]. cbn [fst snd].
+  destruct (negb (b =? 0)); [discriminate|].
+  unfold per_read_integer_16. destruct r as [|h1 [|l1 r1]]; cbn [obind]; try discriminate.
+  destruct (of_be16 h1 l1 + 1001 <? 65536) eqn:E; cbn [obind fst]; [|discriminate].
+  intros H. injection H as <-. apply N.ltb_lt in E. lia.
+Qed.
+
+Section Inv.
+Variable ok : cmsg -> Prop.
+Hypothesis ok_other : forall m, C02_proofs.is_info m = false -> ok m.
+
+Definition I (s : cst) : Prop := forall m, In (RawWrite m) (s_ev s) \/ In (TlsWrite m) (s_ev s) -> ok m.
 
 Lemma I_tr : C02_proofs.tr_only I.
 Proof. intros s s' H1 H2 Hi m. rewrite H1. apply Hi. Qed.
 
-Lemma I_app s l : I s -> (forall m, In (RawWrite m) l \/ In (TlsWrite m) l -> uid_ok m) -> forall i t a, I (mkSt i (s_ev s ++ l) t a).
+Lemma I_app s l : I s -> (forall m, In (RawWrite m) l \/ In (TlsWrite m) l -> ok m) -> forall i t a, I (mkSt i (s_ev s ++ l) t a).
 Proof.
   intros Hi Hl i t a m. cbn [s_ev]. intros [H|H]; apply in_app_or in H; destruct H as [H|H]; auto.
 Qed.
 
-Lemma I_emit m s : uid_ok m -> I s -> I (snd (emit m s)).
+Lemma I_emit m s : ok m -> I s -> I (snd (emit m s)).
 Proof.
   intros Hm Hi. unfold emit. cbn [snd]. apply I_app; [exact Hi|].
   intros m' [H|H]; destruct (s_tls s); cbn in H; destruct H as [H|[]]; inversion H; subst; exact Hm.
 Qed.
 
-Lemma triple_emit_I m : uid_ok m -> C02_proofs.triple I (emit m) (fun _ => I) I.
+Lemma triple_emit_I m : ok m -> C02_proofs.triple I (emit m) (fun _ => I) I.
 Proof. intros Hm s Hs. pose proof (I_emit m s Hm Hs) as H. unfold emit in *. cbn [snd] in H. exact H. Qed.
 
 Lemma triple_keeps_I {A} (m : M A) : C02_proofs.keeps m -> C02_proofs.triple I m (fun _ => I) I.
@@ -516,18 +537,6 @@ Proof.
   destruct (fst r) as [v|x| |] eqn:Er; auto. apply (Hk v eq_refl _ Hs').
 Qed.
 
-Lemma attach_user_uid input uid : read_attach_user_confirm input = Ok uid -> 1001 <= uid <= 65535.
-Proof.
-  unfold read_attach_user_confirm. destruct input as [|h request]; [discriminate|].
-  destruct (negb (N.shiftr h 2 =? MCS_ATTACH_USER_CONFIRM)); [discriminate|].
-  unfold per_read_u8. destruct request as [|b r]; cbn [obind]; [discriminate|]. cbn [fst snd].
-  destruct (negb (b =? 0)); [discriminate|].
-  unfold per_read_integer_16. destruct r as [|h1 [|l1 r1]]; cbn [obind]; try discriminate.
-  destruct (of_be16 h1 l1 + 1001 <? 65536) eqn:E; cbn [obind fst]; [|discriminate].
-  intros H. injection H as <-. apply N.ltb_lt in E. lia.
-Qed.
-
-Section Uid.
 Variable p : prof.
 Variable ber_parse : bytes -> outcome bytes.
 Variable trusted : bool.
@@ -537,14 +546,14 @@ Variable c : config.
 
 Lemma start_ssl_I : C02_proofs.triple I (start_ssl trusted tls_start c) (fun _ => I) I.
 Proof.
-  assert (Hl : forall b m, In (RawWrite m) [TlsStart b] \/ In (TlsWrite m) [TlsStart b] -> uid_ok m).
+  assert (Hl : forall b m, In (RawWrite m) [TlsStart b] \/ In (TlsWrite m) [TlsStart b] -> ok m).
   { intros b m [[H|[]]|[H|[]]]; discriminate. }
   intros s Hs. unfold start_ssl, log_ev.
   destruct (tls_handshake (check_cert c) trusted); [|apply I_app; [exact Hs|apply Hl]].
   destruct (tls_start (s_in s)); (apply I_app; [exact Hs|apply Hl]).
 Qed.
 
-Lemma emit_n_I m : uid_ok m -> forall n s, I s -> I (snd (emit_n m n s)).
+Lemma emit_n_I m : ok m -> forall n s, I s -> I (snd (emit_n m n s)).
 Proof.
   intros Hm. induction n as [|n IH]; intros s Hs; [exact Hs|].
   cbn [emit_n]. unfold bind. pose proof (I_emit m s Hm Hs) as H. unfold emit in *. cbn [snd] in *. apply IH. exact H.
@@ -552,7 +561,7 @@ Qed.
 
 Lemma cssp_connect_I : C02_proofs.triple I (cssp_connect R) (fun _ => I) I.
 Proof.
-  intros s Hs. unfold cssp_connect. pose proof (emit_n_I CSSP Logic.I (fst (R (s_in s))) s Hs) as H.
+  intros s Hs. unfold cssp_connect. pose proof (emit_n_I CSSP (ok_other CSSP eq_refl) (fst (R (s_in s))) s Hs) as H.
   destruct (emit_n CSSP (fst (R (s_in s))) s) as [o s1]. cbn [snd] in H.
   destruct (snd (R (s_in s))); auto.
 Qed.
@@ -560,7 +569,7 @@ Qed.
 Lemma x224_connect_I : C02_proofs.triple I (x224_connect p trusted tls_start R c) (fun _ => I) I.
 Proof.
   unfold x224_connect.
-  eapply C02_proofs.triple_bind; [apply triple_emit_I; exact Logic.I|]. intros ?.
+  eapply C02_proofs.triple_bind; [apply triple_emit_I; apply ok_other; reflexivity|]. intros ?.
   eapply C02_proofs.triple_bind; [apply triple_keeps_I; apply C02_proofs.keeps_recv_tpkt|]. intros pl.
   eapply C02_proofs.triple_bind; [apply triple_keeps_I; apply C02_proofs.keeps_lift|]. intros b.
   eapply C02_proofs.triple_bind; [apply triple_keeps_I; apply C02_proofs.keeps_lift|]. intros sel.
@@ -577,7 +586,7 @@ Qed.
 Lemma join_channels_I uid : forall chans, C02_proofs.triple I (join_channels uid chans) (fun _ => I) I.
 Proof.
   induction chans as [|ch tl IH]; cbn [join_channels]; [apply C02_proofs.triple_ret; auto|].
-  eapply C02_proofs.triple_bind; [apply triple_emit_I; exact Logic.I|]. intros ?.
+  eapply C02_proofs.triple_bind; [apply triple_emit_I; apply ok_other; reflexivity|]. intros ?.
   eapply C02_proofs.triple_bind; [apply triple_keeps_I; apply C02_proofs.keeps_recv_x224|]. intros pl.
   eapply C02_proofs.triple_bind; [apply triple_keeps_I; apply C02_proofs.keeps_lift|]. intros b.
   eapply C02_proofs.triple_bind; [apply triple_keeps_I; apply C02_proofs.keeps_lift|]. intros ?. exact IH.
@@ -586,12 +595,12 @@ Qed.
 Lemma mcs_connect_I sel : C02_proofs.triple I (mcs_connect p ber_parse c sel) (fun us s => I s /\ 1001 <= fst us <= 65535) I.
 Proof.
   unfold mcs_connect.
-  eapply C02_proofs.triple_bind; [apply triple_emit_I; exact Logic.I|]. intros ?.
+  eapply C02_proofs.triple_bind; [apply triple_emit_I; apply ok_other; reflexivity|]. intros ?.
   eapply C02_proofs.triple_bind; [apply triple_keeps_I; apply C02_proofs.keeps_recv_x224|]. intros pl.
   eapply C02_proofs.triple_bind; [apply triple_keeps_I; apply C02_proofs.keeps_lift|]. intros b.
   eapply C02_proofs.triple_bind; [apply triple_keeps_I; apply C02_proofs.keeps_lift|]. intros sd.
-  eapply C02_proofs.triple_bind; [apply triple_emit_I; exact Logic.I|]. intros ?.
-  eapply C02_proofs.triple_bind; [apply triple_emit_I; exact Logic.I|]. intros ?.
+  eapply C02_proofs.triple_bind; [apply triple_emit_I; apply ok_other; reflexivity|]. intros ?.
+  eapply C02_proofs.triple_bind; [apply triple_emit_I; apply ok_other; reflexivity|]. intros ?.
   eapply C02_proofs.triple_bind; [apply triple_keeps_I; apply C02_proofs.keeps_recv_x224|]. intros pl2.
   eapply C02_proofs.triple_bind; [apply triple_keeps_I; apply C02_proofs.keeps_lift|]. intros b2.
   apply triple_bind_lift. intros uid Eu. cbn [fst] in Eu. apply attach_user_uid in Eu.
@@ -599,33 +608,80 @@ Proof.
   apply C02_proofs.triple_ret. intros s Hs. cbn [fst]. auto.
 Qed.
 
-Lemma sec_connect_I uid v5 : 1001 <= uid <= 65535 -> C02_proofs.triple I (sec_connect p c uid v5) (fun _ => I) I.
+Lemma sec_connect_I uid io v5 : ok (INFO (uid - 1001) io (info_len c v5)) -> C02_proofs.triple I (sec_connect p c uid io v5) (fun _ => I) I.
 Proof.
   intros Hu. unfold sec_connect.
-  eapply C02_proofs.triple_bind; [apply triple_emit_I; cbn [uid_ok]; lia|]. intros ?.
+  eapply C02_proofs.triple_bind; [apply triple_emit_I; exact Hu|]. intros ?.
   eapply C02_proofs.triple_bind; [apply triple_keeps_I; apply C02_proofs.keeps_recv_x224|]. intros pl.
   eapply C02_proofs.triple_bind; [apply triple_keeps_I; apply C02_proofs.keeps_lift|]. intros pl'.
   eapply C02_proofs.triple_bind; [apply triple_keeps_I; apply C02_proofs.keeps_lift|]. intros b.
   apply triple_keeps_I. apply C02_proofs.keeps_lift.
 Qed.
 
-Theorem run_uid cs : I (snd (run_connect p ber_parse trusted tls_start R c cs)).
+End Inv.
+
+Section Uid.
+Variable p : prof.
+Variable ber_parse : bytes -> outcome bytes.
+Variable trusted : bool.
+Variable tls_start : stream -> outcome stream.
+Variable R : stream -> nat * outcome stream.
+Variable c : config.
+
+Lemma uid_ok_other m : C02_proofs.is_info m = false -> uid_ok m.
+Proof. destruct m; cbn; intros; try discriminate; exact Logic.I. Qed.
+Lemma no_info_other m : C02_proofs.is_info m = false -> no_info m.
+Proof. destruct m; cbn; intros; try discriminate; exact Logic.I. Qed.
+Lemma info_of_other us m : C02_proofs.is_info m = false -> info_of us m.
+Proof. destruct m; cbn; intros; try discriminate; exact Logic.I. Qed.
+
+Theorem run_uid cs : I uid_ok (snd (run_connect p ber_parse trusted tls_start R c cs)).
 Proof.
   unfold run_connect, connect.
-  assert (H : C02_proofs.triple I
+  assert (H : C02_proofs.triple (I uid_ok)
             (bind (x224_connect p trusted tls_start R c) (fun sel =>
              bind (mcs_connect p ber_parse c sel) (fun us =>
-             bind (sec_connect p c (fst us) (rdp_v5 (snd us))) (fun _ => ret us))))
-            (fun _ => I) I).
-  { eapply C02_proofs.triple_bind; [apply x224_connect_I|]. intros sel.
-    eapply C02_proofs.triple_bind; [apply mcs_connect_I|]. intros us.
+             bind (sec_connect p c (fst us) (global_id (snd us)) (rdp_v5 (snd us))) (fun _ => ret us))))
+            (fun _ => I uid_ok) (I uid_ok)).
+  { eapply C02_proofs.triple_bind; [apply x224_connect_I; exact uid_ok_other|]. intros sel.
+    eapply C02_proofs.triple_bind; [apply mcs_connect_I; exact uid_ok_other|]. intros us.
     intros s [Hs Hu]. revert s Hs.
-    change (C02_proofs.triple I (bind (sec_connect p c (fst us) (rdp_v5 (snd us))) (fun _ => ret us)) (fun _ => I) I).
-    eapply C02_proofs.triple_bind; [apply sec_connect_I; exact Hu|]. intros ?. apply C02_proofs.triple_ret. auto. }
-  assert (H0 : I (mkSt cs [] false 0)) by (intros m [[]|[]]).
+    change (C02_proofs.triple (I uid_ok) (bind (sec_connect p c (fst us) (global_id (snd us)) (rdp_v5 (snd us))) (fun _ => ret us)) (fun _ => I uid_ok) (I uid_ok)).
+    eapply C02_proofs.triple_bind; [apply sec_connect_I; cbn [uid_ok]; lia|]. intros ?. apply C02_proofs.triple_ret. auto. }
+  assert (H0 : I uid_ok (mkSt cs [] false 0)) by (intros m [[]|[]]).
   specialize (H _ H0).
   match goal with |- context [bind ?a ?b ?s] => destruct (bind a b s) as [o s'] end.
   cbn [snd]. destruct o; exact H.
+Qed.
+
+(* when the run returns (user id, server data): every Client Info message of the trace was sent by that user on the
+   I/O channel of that server data *)
+Theorem run_info_channel cs us :
+  fst (run_connect p ber_parse trusted tls_start R c cs) = Ok us ->
+  I (info_of us) (snd (run_connect p ber_parse trusted tls_start R c cs)).
+Proof.
+  unfold run_connect, connect.
+  assert (H : C02_proofs.triple (I no_info)
+            (bind (x224_connect p trusted tls_start R c) (fun sel =>
+             bind (mcs_connect p ber_parse c sel) (fun us =>
+             bind (sec_connect p c (fst us) (global_id (snd us)) (rdp_v5 (snd us))) (fun _ => ret us))))
+            (fun us s => I (info_of us) s) (fun _ => True)).
+  { eapply C02_proofs.triple_bind with (Q := fun _ => I no_info).
+    { eapply triple_weaken; [apply x224_connect_I; exact no_info_other|auto|auto]. }
+    intros sel. eapply C02_proofs.triple_bind with (Q := fun us s => I no_info s /\ 1001 <= fst us <= 65535).
+    { eapply triple_weaken; [apply mcs_connect_I; exact no_info_other|auto|auto]. }
+    intros us0 s [Hs Hu]. revert s Hs.
+    change (C02_proofs.triple (I no_info) (bind (sec_connect p c (fst us0) (global_id (snd us0)) (rdp_v5 (snd us0))) (fun _ => ret us0))
+                              (fun us s => I (info_of us) s) (fun _ => True)).
+    eapply C02_proofs.triple_pre with (P := I (info_of us0)).
+    { intros s Hs m Hm. specialize (Hs m Hm). destruct m; cbn in *; try exact Logic.I. contradiction. }
+    eapply C02_proofs.triple_bind with (Q := fun _ => I (info_of us0)).
+    { eapply triple_weaken; [apply sec_connect_I; cbn; split; [lia|reflexivity]|auto|auto]. }
+    intros ?. apply C02_proofs.triple_ret. auto. }
+  assert (H0 : I no_info (mkSt cs [] false 0)) by (intros m [[]|[]]).
+  specialize (H _ H0).
+  match goal with |- context [bind ?a ?b ?s] => destruct (bind a b s) as [o s'] end.
+  cbn [fst snd]. intros ->. exact H.
 Qed.
 
 End Uid.
@@ -849,7 +905,7 @@ Qed.
 (* Client Info: the emitter applied to the credentials handed to sec::connect *)
 Theorem info_is_emitter c e cs b :
   In b (tls_writes KInfo (snd (run c e cs))) ->
-  exists uid ver, ClientPdus.emit_client_info p false (pdu_cfg c) (ClientPdus.mkIds 0 ver uid 0) = Ok b.
+  exists uid ver io, ClientPdus.emit_client_info p false (pdu_cfg c) (ClientPdus.mkIds 0 ver uid 0 io) = Ok b.
 Proof. intros H. destruct (out_kind c e cs _ _ H) as (r & Ek & _ & Hs). unfold kind_spec in Hs. rewrite Ek in Hs. exact Hs. Qed.
 
 (* everything else is made from the public part of the configuration *)
@@ -879,36 +935,61 @@ Definition info_ok (c : sconfig) (uid : N) : Prop := strings_ok c /\ 1001 <= uid
 
 Definition info_flags (c : sconfig) : N := ClientPdus.INFO_FLAGS + (if sc_autologon c then ClientPdus.INFO_AUTOLOGON else 0).
 
-Definition expected_client_info (c : sconfig) (uid ver : N) : StrictPdu.pdu :=
+(* the channel of the send-data-request is a 16-bit field: what travels is the id modulo 2^16 (the id itself whenever it
+   was read from a 16-bit field of octets, as the server network data's MCSChannelId is) *)
+Definition expected_client_info (c : sconfig) (uid io ver : N) : StrictPdu.pdu :=
   let '(d, u, pw) := sc_info_creds c in
-  StrictPdu.PClientInfo uid ClientPdus.IO_CHANNEL
+  StrictPdu.PClientInfo uid (io mod 65536)
     (StrictPdu.mkInfo 0 (info_flags c) d u pw [] []
        (if ClientPdus.is_rdp_version_5_plus false ver then Some (StrictPdu.mkExt 2 [] [] 0 0) else None)).
 
-Theorem client_info_decodes p c uid ver b :
-  info_ok c uid ->
-  ClientPdus.emit_client_info p false (pdu_cfg c) (ClientPdus.mkIds 0 ver uid 0) = Ok b ->
-  StrictPdu.strict_parse b = Some (expected_client_info c uid ver).
+Lemma be16_mod n : be16 (n mod 65536) = be16 n.
 Proof.
-  intros (Hs & Huid) Hb.
+  unfold be16, u16_hi, u16_lo.
+  assert (H1 : (n mod 65536) mod 256 = n mod 256).
+  { change 65536 with (256 * 256). rewrite N.mod_mul_r by lia. rewrite (N.mul_comm 256), N.mod_add by lia. apply N.mod_mod. lia. }
+  assert (H2 : (n mod 65536 / 256) mod 256 = (n / 256) mod 256).
+  { change 65536 with (256 * 256). rewrite N.mod_mul_r by lia.
+    rewrite (N.mul_comm 256), N.div_add by lia. rewrite (N.div_small (n mod 256)) by (apply N.mod_lt; lia).
+    rewrite N.add_0_l. apply N.mod_mod. lia. }
+  rewrite H1, H2. reflexivity.
+Qed.
+
+Lemma emit_info_io_mod p sw cfg a v uid sh io :
+  ClientPdus.emit_client_info p sw cfg (ClientPdus.mkIds a v uid sh (io mod 65536)) =
+  ClientPdus.emit_client_info p sw cfg (ClientPdus.mkIds a v uid sh io).
+Proof.
+  unfold ClientPdus.emit_client_info. cbn [ClientPdus.i_uid ClientPdus.i_io ClientPdus.i_version].
+  match goal with |- obind ?o _ = obind ?o _ => destruct o as [m|x| |] end; cbn [obind]; try reflexivity.
+  unfold ClientPdus.mcs_send. rewrite be16_mod. reflexivity.
+Qed.
+
+Theorem client_info_decodes p c uid io ver b :
+  info_ok c uid ->
+  ClientPdus.emit_client_info p false (pdu_cfg c) (ClientPdus.mkIds 0 ver uid 0 io) = Ok b ->
+  StrictPdu.strict_parse b = Some (expected_client_info c uid io ver).
+Proof.
+  intros (Hs & Huid) Hb. rewrite <- emit_info_io_mod in Hb.
   set (cfg := let '(d, u, pw) := sc_info_creds c in ClientPdus.mkCfg 0 false (sc_autologon c) 0 0 0 [] d u pw).
-  assert (Hv : C04_proofs.valid_cfg false cfg (ClientPdus.mkIds 0 ver uid 0)).
+  assert (Hv : C04_proofs.valid_cfg false cfg (ClientPdus.mkIds 0 ver uid 0 (io mod 65536))).
   { unfold C04_proofs.valid_cfg, cfg, C04_proofs.info_size, C04_proofs.confirm_size, C04_proofs.PER_MAX.
     unfold strings_ok in Hs. destruct (sc_info_creds c) as [[d u] pw]. destruct Hs as (Hd & Hu & Hp & Hsz).
     cbn [ClientPdus.c_name ClientPdus.c_domain ClientPdus.c_user ClientPdus.c_password ClientPdus.c_width
-      ClientPdus.c_height ClientPdus.c_layout ClientPdus.c_offered ClientPdus.i_selected ClientPdus.i_share ClientPdus.i_uid ClientPdus.i_version].
+      ClientPdus.c_height ClientPdus.c_layout ClientPdus.c_offered ClientPdus.i_selected ClientPdus.i_share ClientPdus.i_uid ClientPdus.i_version ClientPdus.i_io].
     unfold units in Hsz; repeat split; auto; try constructor; try lia;
     try (change (nlen (ClientPdus.utf8 [])) with 0; lia);
+    try (apply N.mod_lt; lia);
     destruct (ClientPdus.is_rdp_version_5_plus false ver); lia. }
   destruct (C04_proofs.emit_client_info_parses p false cfg _ Hv) as (f & Ef & Epf).
-  assert (Esame : ClientPdus.emit_client_info p false cfg (ClientPdus.mkIds 0 ver uid 0)
-                  = ClientPdus.emit_client_info p false (pdu_cfg c) (ClientPdus.mkIds 0 ver uid 0)).
+  assert (Esame : ClientPdus.emit_client_info p false cfg (ClientPdus.mkIds 0 ver uid 0 (io mod 65536))
+                  = ClientPdus.emit_client_info p false (pdu_cfg c) (ClientPdus.mkIds 0 ver uid 0 (io mod 65536))).
   { unfold cfg, pdu_cfg, sc_info_creds. destruct (sc_restricted c); reflexivity. }
   rewrite Esame, Hb in Ef. injection Ef as <-. rewrite Epf. f_equal.
   unfold C04_proofs.expected_info, expected_client_info, cfg, sc_info_creds, info_flags. destruct (sc_restricted c); reflexivity.
 Qed.
 
-(* ... for the Client Info events of a run: the user id is always in range (Part C, run_uid) *)
+(* ... for the Client Info events of a run: the event comes from an INFO message of the sequence model's trace, whose user
+   id is always in range (Part C, run_uid) *)
 Section ModelInfo.
 Variable md4 md5 : bytes -> bytes.
 Variable hmac : bytes -> bytes -> bytes.
@@ -923,18 +1004,24 @@ Variable rv : bytes -> outcome bytes.
 Variable ber_parse : bytes -> outcome bytes.
 Variable tls_start : stream -> outcome stream.
 Notation run := (secrets_run md4 md5 hmac uppercase p crq cau ccr cai rsc rv ber_parse tls_start).
+Notation trace c e cs := (s_ev (snd (sc_trace md4 md5 hmac uppercase p crq cau ccr cai rsc rv ber_parse tls_start c e cs))).
 
 Theorem client_info_wire c e cs b :
   strings_ok c -> In b (tls_writes KInfo (snd (run c e cs))) ->
-  exists uid ver, 1001 <= uid <= 65535 /\ StrictPdu.strict_parse b = Some (expected_client_info c uid ver).
+  exists ini io len ver, In (TlsWrite (INFO ini io len)) (trace c e cs) /\ ini + 1001 <= 65535 /\
+                         StrictPdu.strict_parse b = Some (expected_client_info c (ini + 1001) io ver).
 Proof.
   intros Hs Hin. apply tls_writes_in in Hin. unfold secrets_run in Hin. cbn [snd] in Hin.
-  destruct (written_in _ _ Hin) as (r & Hr & Hrel). destruct (rel_tls _ _ _ Hrel) as (Ek & Eb & _).
-  unfold rendered in Hr. destruct (render_info _ _ _ _ _ _ _ Hr Ek) as (ini & ch & len & Htr & ver & Ev).
+  destruct (written_in _ _ Hin) as (r & Hr & Hrel). destruct (rel_tls _ _ _ Hrel) as (Ek & Eb & m & Em).
+  unfold rendered in Hr. destruct (render_info _ _ _ _ _ _ _ Hr Ek) as (ini & ch & len & Hev & ver & Ev).
+  assert (Htr : In (TlsWrite (INFO ini ch len)) (trace c e cs)).
+  { destruct Hev as [Hev|Hev]; [congruence|]. rewrite <- Hev.
+    match type of Hr with In _ (render _ _ _ ?cl _ _) => rewrite <- (render_ev p c e cl (trace c e cs) 0) end.
+    apply in_map. exact Hr. }
   pose proof (run_uid p ber_parse (e_trusted e) tls_start (sc_cssp_run md4 md5 hmac uppercase p crq cau ccr cai rsc rv c e)
-                      (conn_cfg c e) cs (INFO ini ch len) Htr) as Hu1. cbn [uid_ok] in Hu1.
-  exists (ini + 1001), ver. split; [lia|].
-  apply (client_info_decodes p c (ini + 1001) ver b); [|rewrite <- Ev; exact Eb].
+                      (conn_cfg c e) cs (INFO ini ch len) (or_intror Htr)) as Hu1. cbn [uid_ok] in Hu1.
+  exists ini, ch, len, ver. split; [exact Htr|]. split; [exact Hu1|].
+  apply (client_info_decodes p c (ini + 1001) ch ver b); [|rewrite <- Ev; exact Eb].
   split; [exact Hs|lia].
 Qed.
 
@@ -974,19 +1061,42 @@ Definition auth_message (x : externals) (dom user : ustring) (rkey : bytes) (e :
 Definition sealed_creds (x : externals) (d u pw b : bytes) : Prop :=
   exists ctx1 ctx2 sealed, b = x_cai x sealed /\ gss_wrapex (x_hmac x) ctx1 (x_ccr x d u pw) = Ok (sealed, ctx2).
 
-(* the Client Info PDU decoded by the strict parser: user id in range, fields (d, u, pw), flags of the configuration *)
-Definition info_decodes (c : sconfig) (d u pw : ustring) (b : bytes) : Prop :=
-  exists uid ver, 1001 <= uid <= 65535 /\
-    StrictPdu.strict_parse b = Some (StrictPdu.PClientInfo uid ClientPdus.IO_CHANNEL
+(* the event trace and the result of the sequence model (Connect.v) for that run *)
+Definition trace_of (x : externals) (c : sconfig) (e : senv) (cs : stream) : list tev :=
+  s_ev (snd (sc_trace (x_md4 x) (x_md5 x) (x_hmac x) (x_upper x) (x_prof x) (x_crq x) (x_cau x) (x_ccr x) (x_cai x)
+                      (x_rsc x) (x_rv x) (x_ber x) (x_tls x) c e cs)).
+Definition result_of (x : externals) (c : sconfig) (e : senv) (cs : stream) : outcome (N * server_data) :=
+  fst (sc_trace (x_md4 x) (x_md5 x) (x_hmac x) (x_upper x) (x_prof x) (x_crq x) (x_cau x) (x_ccr x) (x_cai x)
+                (x_rsc x) (x_rv x) (x_ber x) (x_tls x) c e cs).
+
+(* the Client Info PDU decoded by the strict parser: it is the INFO message (initiator, I/O channel) of the trace [tr],
+   written inside TLS; user id = initiator + 1001 in range; channel = that I/O channel id (as a 16-bit field carries it);
+   fields (d, u, pw); flags of the configuration *)
+Definition info_decodes (tr : list tev) (c : sconfig) (d u pw : ustring) (b : bytes) : Prop :=
+  exists ini io len ver, In (TlsWrite (INFO ini io len)) tr /\ ini + 1001 <= 65535 /\
+    StrictPdu.strict_parse b = Some (StrictPdu.PClientInfo (ini + 1001) (io mod 65536)
       (StrictPdu.mkInfo 0 (info_flags c) d u pw [] []
          (if ClientPdus.is_rdp_version_5_plus false ver then Some (StrictPdu.mkExt 2 [] [] 0 0) else None))).
 
 Lemma info_decodes_creds x c e cs b :
   strings_ok c -> In b (tls_writes KInfo (out x c e cs)) ->
-  let '(d, u, pw) := sc_info_creds c in info_decodes c d u pw b.
+  let '(d, u, pw) := sc_info_creds c in info_decodes (trace_of x c e cs) c d u pw b.
 Proof.
-  intros Hs Hin. destruct (client_info_wire _ _ _ _ _ _ _ _ _ _ _ _ _ c e cs b Hs Hin) as (uid & ver & Hu & Hp).
-  unfold expected_client_info in Hp. destruct (sc_info_creds c) as [[d u] pw]. exists uid, ver. auto.
+  intros Hs Hin. destruct (client_info_wire _ _ _ _ _ _ _ _ _ _ _ _ _ c e cs b Hs Hin) as (ini & io & len & ver & Ht & Hu & Hp).
+  unfold expected_client_info in Hp. destruct (sc_info_creds c) as [[d u] pw]. exists ini, io, len, ver. auto.
+Qed.
+
+(* which channel that is: when the run returns (user id, server data), every INFO message of the trace carries that user
+   id and the I/O channel id of that server data = MCSChannelId of the server network data (Connect.gcc_server_data) *)
+Theorem stmt_info_channel x c e cs uid sd ini io len :
+  result_of x c e cs = Ok (uid, sd) -> In (TlsWrite (INFO ini io len)) (trace_of x c e cs) ->
+  ini + 1001 = uid /\ io = global_id sd.
+Proof.
+  intros Hr Hin.
+  pose proof (run_info_channel (x_prof x) (x_ber x) (e_trusted e) (x_tls x)
+                (sc_cssp_run (x_md4 x) (x_md5 x) (x_hmac x) (x_upper x) (x_prof x) (x_crq x) (x_cau x) (x_ccr x) (x_cai x) (x_rsc x) (x_rv x) c e)
+                (conn_cfg c e) cs (uid, sd) Hr (INFO ini io len) (or_intror Hin)) as H.
+  cbn [info_of fst snd] in H. exact H.
 Qed.
 
 Theorem stmt_raw_independent x c e cs :
@@ -1023,7 +1133,7 @@ Theorem stmt_where x c e cs :
   (forall pre k b post, out x c e cs = pre ++ BRaw k b :: post -> pre = [] /\ k = KCr /\ b = cr_frame (sc_offered c) (sc_neg_flag c)) /\
   (forall b, In b (tls_writes KAuthInfo (out x c e cs)) ->
      exists chal, let '(d, u, pw) := sc_ts_creds c (challenge_is_unicode (x_prof x) chal) in sealed_creds x d u pw b) /\
-  (forall b, strings_ok c -> In b (tls_writes KInfo (out x c e cs)) -> let '(d, u, pw) := sc_info_creds c in info_decodes c d u pw b).
+  (forall b, strings_ok c -> In b (tls_writes KInfo (out x c e cs)) -> let '(d, u, pw) := sc_info_creds c in info_decodes (trace_of x c e cs) c d u pw b).
 Proof.
   split; [apply tls_after_start|]. split; [apply raw_only_head|]. split.
   - intros b H. apply authinfo_sealed_creds in H. destruct H as (chal & c1 & c2 & sl & E1 & E2). exists chal.
@@ -1060,7 +1170,7 @@ Theorem stmt_restricted x c e cs :
   raw_writes (out x c e cs) = [cr_frame (sc_offered c) 1] /\
   StrictPdu.strict_parse (cr_frame (sc_offered c) 1) = Some (StrictPdu.PConnectionRequest 1 (sc_offered c)) /\
   (forall b, In b (tls_writes KAuthInfo (out x c e cs)) -> sealed_creds x [] [] [] b) /\
-  (forall b, In b (tls_writes KInfo (out x c e cs)) -> info_decodes c [] [] [] b).
+  (forall b, In b (tls_writes KInfo (out x c e cs)) -> info_decodes (trace_of x c e cs) c [] [] [] b).
 Proof.
   intros Hr. assert (Hf : sc_neg_flag c = 1) by (unfold sc_neg_flag; rewrite Hr; reflexivity).
   split; [rewrite <- Hf; apply raw_is_request|]. split; [rewrite <- Hf at 1 2; apply cr_frame_parses|]. split.
@@ -1076,7 +1186,7 @@ Theorem stmt_blank x c e cs :
   raw_writes (out x c e cs) = [cr_frame (sc_offered c) 0] /\
   StrictPdu.strict_parse (cr_frame (sc_offered c) 0) = Some (StrictPdu.PConnectionRequest 0 (sc_offered c)) /\
   (forall b, In b (tls_writes KAuthInfo (out x c e cs)) -> sealed_creds x [] [] [] b) /\
-  (forall b, strings_ok c -> In b (tls_writes KInfo (out x c e cs)) -> info_decodes c (sc_domain c) (sc_user c) (sc_password c) b).
+  (forall b, strings_ok c -> In b (tls_writes KInfo (out x c e cs)) -> info_decodes (trace_of x c e cs) c (sc_domain c) (sc_user c) (sc_password c) b).
 Proof.
   intros Hb Hr. assert (Hf : sc_neg_flag c = 0) by (unfold sc_neg_flag; rewrite Hr; reflexivity).
   split; [rewrite <- Hf; apply raw_is_request|]. split; [rewrite <- Hf at 1 2; apply cr_frame_parses|]. split.
@@ -1091,7 +1201,7 @@ Theorem stmt_default_mode x c e cs :
   raw_writes (out x c e cs) = [cr_frame (sc_offered c) 0] /\
   (forall b, In b (tls_writes KAuthInfo (out x c e cs)) ->
      exists u, sealed_creds x (encode_name u (sc_domain c)) (encode_name u (sc_user c)) (encode_name u (sc_password c)) b) /\
-  (forall b, strings_ok c -> In b (tls_writes KInfo (out x c e cs)) -> info_decodes c (sc_domain c) (sc_user c) (sc_password c) b).
+  (forall b, strings_ok c -> In b (tls_writes KInfo (out x c e cs)) -> info_decodes (trace_of x c e cs) c (sc_domain c) (sc_user c) (sc_password c) b).
 Proof.
   intros Hr Hb Hh. assert (Hf : sc_neg_flag c = 0) by (unfold sc_neg_flag; rewrite Hr; reflexivity).
   split; [rewrite <- Hf; apply raw_is_request|]. split.
@@ -1107,7 +1217,7 @@ Theorem stmt_hash_mode x c e cs h :
   response_key x c = ntowfv2_hash (x_hmac x) (x_upper x) h (sc_user c) (sc_domain c) /\
   (forall b, In b (tls_writes KAuthInfo (out x c e cs)) ->
      exists u, sealed_creds x (encode_name u (sc_domain c)) (encode_name u (sc_user c)) [] b) /\
-  (forall b, strings_ok c -> In b (tls_writes KInfo (out x c e cs)) -> info_decodes c (sc_domain c) (sc_user c) (sc_password c) b).
+  (forall b, strings_ok c -> In b (tls_writes KInfo (out x c e cs)) -> info_decodes (trace_of x c e cs) c (sc_domain c) (sc_user c) (sc_password c) b).
 Proof.
   intros Hh Hr Hb. split; [apply key_hash_mode; exact Hh|]. split.
   - intros b H. destruct (stmt_where x c e cs) as (_ & _ & Hw & _). destruct (Hw b H) as (chal & Hc).
@@ -1122,7 +1232,7 @@ Theorem stmt_autologon x c e cs b :
                    (N.land (StrictPdu.n_flags i) ClientPdus.INFO_AUTOLOGON =? ClientPdus.INFO_AUTOLOGON) = sc_autologon c.
 Proof.
   intros Hs H. pose proof (info_decodes_creds x c e cs b Hs H) as Hd. destruct (sc_info_creds c) as [[d u] pw].
-  destruct Hd as (uid & ver & _ & Hp). eexists. eexists. eexists. split; [exact Hp|]. cbn [StrictPdu.n_flags]. apply autologon_bit.
+  destruct Hd as (ini & io & len & ver & _ & _ & Hp). eexists. eexists. eexists. split; [exact Hp|]. cbn [StrictPdu.n_flags]. apply autologon_bit.
 Qed.
 
 (* internal consistency of the model's rendering (sanity, not part of the property): every CredSSP event of the sequence
